@@ -190,9 +190,16 @@ class C15(Property):
         ia.refine_droplet = H.delayed_refine
         par = ia.locate_droplets(field, num_processes=nproc, **kw_fresh())
         ctx.require(em_records(par) == em_records(base), f"refine:parallel-differs:procs={nproc}", f"locate_droplets(refine=True, num_processes={nproc}) differs from the serial result ({len(par)} vs {len(base)} droplets; completion ranks {ranks})")
-        lst = ia.refine_droplets(field, list(cands), num_processes=nproc, **(kw_fresh()["refine_args"] or {}))
+        def as_given(seq):  # the candidates as a list, a tuple, an Emulsion, a generator or an iterator
+            from droplets import Emulsion
+
+            how = spec["seed"] % 5
+            items = [c.copy() for c in seq]
+            return [items, tuple(items), Emulsion(items), (c for c in items), iter(items)][how]
+
+        lst = ia.refine_droplets(field, as_given(cands), num_processes=nproc, **(kw_fresh()["refine_args"] or {}))
         ia.refine_droplet = H._orig_refine
-        ser = ia.refine_droplets(field, list(cands), num_processes=1, **(kw_fresh()["refine_args"] or {}))
+        ser = ia.refine_droplets(field, as_given(cands), num_processes=1, **(kw_fresh()["refine_args"] or {}))
         ctx.require(em_records(lst) == em_records(ser), f"refine_droplets:parallel-differs:procs={nproc}", f"refine_droplets(num_processes={nproc}) differs from the serial list (completion ranks {ranks})")
 
     def _storage(self, spec, ctx, grid, nproc, order, ia):
@@ -206,6 +213,9 @@ class C15(Property):
         if spec.get("dup_times") and nf >= 2:
             times[-1] = times[-2]
             ctx.cls("repeated-time-stamp")
+        elif spec["seed"] % 4 == 1 and nf >= 3:  # a storage continued after a restart: the time stamps are not monotonic
+            times[-1] = times[-3] + 0.25
+            ctx.cls("non-monotonic-time-stamps")
         st_ = MemoryStorage()
         st_.start_writing(frames[0])
         for f, t in zip(frames, times):
